@@ -25,7 +25,7 @@ open TLX
 
 /-- the Python exceptions the subset can raise; `fuel` is not one: a `while` loop ran out of the rounds its spec
     allows (the theorems exclude it) -/
-inductive Err | index | zeroDiv | value | overflow | key | type | fuel
+inductive Err | index | zeroDiv | value | overflow | key | type | struct | unbound | attr | fuel
   deriving DecidableEq, Repr, Inhabited
 
 /-- how a statement list was left -/
@@ -155,6 +155,47 @@ def strPrefix : List Nat → List Nat → Bool
 def strIn (p : List Nat) : List Nat → Bool
   | [] => p.isEmpty
   | s@(_ :: t) => strPrefix p s || strIn p t
+
+/-- a field of a `struct` format of the subset: `B`, or `<n>s` (a negative `n` prints as "-…": a bad format) -/
+inductive Fld | B | S (n : Int)
+  deriving DecidableEq, Repr
+
+def Fld.size : Fld → Except Err Nat
+  | .B => .ok 1
+  | .S n => if n < 0 then .error .struct else .ok n.toNat
+
+def fmtSize : List Fld → Except Err Nat
+  | [] => .ok 0
+  | f :: r =>
+    match f.size with
+    | .error e => .error e
+    | .ok a =>
+      match fmtSize r with
+      | .error e => .error e
+      | .ok b => .ok (a + b)
+
+/-- the bytes of the fields of a format whose sizes are known to be fine, cut from `d` -/
+def cutFields : List Fld → Bytes → List Bytes
+  | [], _ => []
+  | .B :: r, d => d.take 1 :: cutFields r (d.drop 1)
+  | .S n :: r, d => d.take n.toNat :: cutFields r (d.drop n.toNat)
+
+/-- `struct.unpack_from(fmt, d)`: struct.error for a bad format or a buffer shorter than the format; else the raw
+    bytes of every field (`fldB` / `fldS` read a field as the int or the bytes its kind says) -/
+def unpackFrom (fmt : List Fld) (d : Bytes) : Except Err (List Bytes) :=
+  match fmtSize fmt with
+  | .error e => .error e
+  | .ok n => if d.length < n then .error .struct else .ok (cutFields fmt d)
+
+def fldS (parts : List Bytes) (i : Nat) : Bytes := parts.getD i []
+def fldB (parts : List Bytes) (i : Nat) : Nat := ((parts.getD i []).headD 0).toNat
+
+/-- `zip(a, b)` of two byte strings -/
+def zipBytes (a b : Bytes) : List (Nat × Nat) := List.zipWith (fun x y => (x.toNat, y.toNat)) a b
+
+/-- `bytes([…])`: ValueError unless every element is in range(256) -/
+def bytesOfE (l : List Int) : Except Err Bytes :=
+  if l.all (fun v => decide (0 ≤ v ∧ v < 256)) then .ok (l.map fun v => UInt8.ofNat v.toNat) else .error .value
 
 /-! ### loops -/
 
